@@ -74,7 +74,7 @@ CORE = {   # full product in the thorough tier
     "v4sup": [True, False], "v6sup": [True, False], "cf_v4": [True, False], "cf_v6": [True, False],
     "regaddr": ["v4", "v6", None], "gen": [1, 3, 4, 99], "flags": [None, True], "source": [1, 2],
     "rr": ["none", "v4in"], "pblock": ["none", "v4", "v6"], "covert": ["ok", "blocked"], "share": [True, False],
-    "live": [False, True], "transport": [0, 5],
+    "live": [False, True],
 }
 
 
@@ -442,11 +442,14 @@ def run(ctx):
         "ValidateRegistration / register / getRegistrations / GenerateC2SWrapper by the correspondence run",
     ]
     ctx.cov["rule"] = ("decision table of the admission procedure: admissible base rows with every single-factor flip, a "
-                       "covering array over all 20 factors (strength 2 quick / 3 thorough), the full product of the 14 core "
+                       "covering array over all 20 factors (strength 2 quick / 3 thorough), the full product of the 13 core "
                        "factors (random slice in quick), multi-message histories (duplicates, re-registration after a "
                        "rejection) and hand-built incomplete registrations; a case is non-trivial if hash-distinct, "
                        "counted per outcome class")
     ctx.coq_props(extra_dirs=["C06"])
+    rc, out = ctx.coq_make(["C07/Examples.vo"])
+    if rc != 0:
+        ctx.broken("examples", "coq/C07/Examples.v (non-vacuity) no longer checks: %s" % out[-400:])
 
     cases = gen_cases(ctx)
     payload = [{"cfg": c["cfg"], "live": c["live"], "steps": c["steps"]} for c in cases]
@@ -509,7 +512,7 @@ def run(ctx):
                        "msg/rejected:covert-ok", "msg/rejected:not-live", "msg/rejected:phantom-not-blocked",
                        "msg/rejected:fresh", "raw/announced", "raw/rejected"])
 
-    mm = ctx.coq_mismatches("adm", HEADER, [t for t, _ in terms], "chk", shard=300, need_vo=["C07/Run.vo"])
+    mm = ctx.coq_mismatches("adm", HEADER, [t for t, _ in terms], "chk", shard=300 if ctx.tier == "quick" else 1500, need_vo=["C07/Run.vo"])
     if mm:
         ctx.cov["mismatches"] += len(mm)
         ctx.broken("correspondence", "model C07.Run and the ingest code disagree on %d case(s); first kind=%s row=%s"
@@ -527,9 +530,15 @@ def oracle_msg(ctx, e, obs, m, cfg, live, info):
         ctx.fail("unexpected-parse-error", "parseRegMessage rejected a buildable message", info)
         return "msg/unexpected-error"
     if not e.drafts:
+        if obs["ndrafts"] != 0:
+            ctx.fail("drafts/unrequested-family", "the message asks for no registration this station serves, but "
+                     "parseRegMessage returned %d" % obs["ndrafts"], info)
         if obs["announced"] or obs["probes"] or obs["shares"]:
             ctx.fail("effects-without-registration", "a message that yields no registration had effects", info)
         return "msg/no-draft"
+    if obs["ndrafts"] != len(e.drafts):
+        ctx.fail("drafts/count-differs", "the message should yield %d registration(s) (families %s) but parseRegMessage returned %d"
+                 % (len(e.drafts), [d["fam"] for d in e.drafts], obs["ndrafts"]), info)
     ann = [norm_hex(a["phantom"]) for a in obs["announced"]]
     prb = [norm_hex(p[0]) if not p[0].startswith("text:") else p[0] for p in obs["probes"]]
     nshare = 0
